@@ -87,3 +87,180 @@ Theorem C15_post_plan : forall size bs, size <= 2 ^ 63 -> bs <= 10 ->
   post_order_chunks_iter (mkTree size bs) = post_plan size bs.
 Proof. exact post_plan_refines. Qed.
 Print Assumptions C15_post_plan.
+
+(* ======== Gap audit: every clause as a theorem about the plans of the STACK MACHINES (proofs in Proofs/GapC15.v) ======== *)
+From BaoV Require Import Proofs.GapC15.
+Local Open Scope N_scope.
+
+(* ---- C. ResponseIter versus the chunk iterator, with no hypothesis at all: ResponseIter over the tree
+   (size, bs) is the partial chunk iterator over the block-size-0 tree with min level bs, ranges dropped ---- *)
+Theorem C15_response_iter_is_chunk_iter : forall size bs q,
+  response_iter (mkTree size bs) q = map without_ranges (pre_order_chunks_iter (mkTree size 0) q bs).
+Proof. exact response_iter_is_chunk_iter. Qed.
+Print Assumptions C15_response_iter_is_chunk_iter.
+
+(* the empty query yields the empty plan (no hypothesis) *)
+Theorem C15_pre_iter_empty : forall size bs ml, pre_order_chunks_iter (mkTree size bs) [] ml = [].
+Proof. exact pre_iter_empty. Qed.
+Print Assumptions C15_pre_iter_empty.
+
+Theorem C15_response_iter_empty : forall size bs, response_iter (mkTree size bs) [] = [].
+Proof. exact response_iter_empty. Qed.
+Print Assumptions C15_response_iter_empty.
+
+(* ---- D. all clauses, stated of the items the stack machines yield (any min level ml : N, block sizes 0..10) ---- *)
+(* PreOrderPartialChunkIterRef (ranges_pre_order_chunks_iter_ref), items with their ranges field *)
+Theorem C15_pre_iter_wf : forall size bs ml q, size <= 2 ^ 63 -> bs <= 10 -> wf_ranges q = true -> q <> [] ->
+  let plan := pre_order_chunks_iter (mkTree size bs) q ml in
+  plan <> [] /\
+  pre_stack_ok plan 1 = true /\
+  root_flag_first plan = true /\
+  leaves_increasing plan 0 = true /\
+  (forall s z ir rs, In (CLeaf s z ir rs) plan -> leaf_shape_ok size s z = true) /\
+  parse_pre (S (length plan)) plan 0 None = Some [] /\
+  (forall c, sel q size c = true -> in_leaves (leaves_of_plan plan) c = true) /\
+  (forall lo hi, In (lo, hi) (leaves_of_plan plan) -> exists c, lo <= c < hi /\ sel q size c = true).
+Proof. exact pre_iter_wf. Qed.
+Print Assumptions C15_pre_iter_wf.
+
+Theorem C15_pre_iter_holds : forall size bs ml q, size <= 2 ^ 63 -> bs <= 10 -> wf_ranges q = true ->
+  holds_pre_plan size bs q (map without_ranges (pre_order_chunks_iter (mkTree size bs) q ml)) = true.
+Proof. exact pre_iter_holds. Qed.
+Print Assumptions C15_pre_iter_holds.
+
+(* ResponseIter *)
+Theorem C15_response_iter_wf : forall size bs q, size <= 2 ^ 63 -> bs <= 10 -> wf_ranges q = true -> q <> [] ->
+  let plan := response_iter (mkTree size bs) q in
+  plan <> [] /\
+  pre_stack_ok plan 1 = true /\
+  root_flag_first plan = true /\
+  leaves_increasing plan 0 = true /\
+  (forall s z ir rs, In (CLeaf s z ir rs) plan -> leaf_shape_ok size s z = true) /\
+  parse_pre (S (length plan)) plan 0 None = Some [] /\
+  (forall c, sel q size c = true -> in_leaves (leaves_of_plan plan) c = true) /\
+  (forall lo hi, In (lo, hi) (leaves_of_plan plan) -> exists c, lo <= c < hi /\ sel q size c = true).
+Proof. exact response_iter_wf. Qed.
+Print Assumptions C15_response_iter_wf.
+
+Theorem C15_response_iter_holds : forall size bs q, size <= 2 ^ 63 -> bs <= 10 -> wf_ranges q = true ->
+  holds_pre_plan size 0 q (response_iter (mkTree size bs) q) = true.
+Proof. exact response_iter_holds. Qed.
+Print Assumptions C15_response_iter_holds.
+
+(* PostOrderChunkIter: stack, root flag last, leaves tile the whole blob from chunk 0, every parent follows
+   its two subtrees, every leaf is (the in-blob part of) one chunk group with the right byte size *)
+Theorem C15_post_iter_wf : forall size bs, size <= 2 ^ 63 -> bs <= 10 ->
+  let plan := post_order_chunks_iter (mkTree size bs) in
+  post_stack_ok plan 0 = true /\
+  root_flag_last plan = true /\
+  post_tiles plan 0 = Some (nchunks size) /\
+  post_struct plan [] = true /\
+  (forall s z ir rs, In (CLeaf s z ir rs) plan ->
+     z = span_bytes size s (s + leaf_chunks z) /\ s mod 2 ^ bs = 0 /\ leaf_chunks z <= 2 ^ bs) /\
+  holds_post_plan size bs plan = true.
+Proof. exact post_iter_wf. Qed.
+Print Assumptions C15_post_iter_wf.
+
+(* ---- E. granularity of the leaves and the EXACT cover (the two existing cover clauses only give "every selected
+   chunk is in a leaf" and "every leaf holds a selected chunk").
+   A leaf interval [lo, hi) is the in-blob part of ONE aligned block of 2^j chunks with bs <= j; a block larger than a
+   chunk group (bs < j) only occurs below the min level (j <= ml) and is then selected in full: this is the
+   min level / block size interaction. ---- *)
+Theorem C15_pre_iter_gran : forall size bs ml q, size <= 2 ^ 63 -> bs <= 10 -> wf_ranges q = true ->
+  forall lo hi, In (lo, hi) (leaves_of_plan (pre_order_chunks_iter (mkTree size bs) q ml)) ->
+  exists j k, lo = k * 2 ^ j /\ hi = N.min (lo + 2 ^ j) (nchunks size) /\ lo < nchunks size /\ bs <= j /\
+    (bs < j -> j <= ml /\ forall c, lo <= c < hi -> sel q size c = true).
+Proof. exact pre_iter_gran. Qed.
+Print Assumptions C15_pre_iter_gran.
+
+(* the leaves cover exactly the in-blob chunks of the chunk groups the selection touches *)
+Theorem C15_pre_iter_cover_exact : forall size bs ml q, size <= 2 ^ 63 -> bs <= 10 -> wf_ranges q = true ->
+  forall c, in_leaves (leaves_of_plan (pre_order_chunks_iter (mkTree size bs) q ml)) c = true <->
+            c < nchunks size /\ exists c', sel q size c' = true /\ c / 2 ^ bs = c' / 2 ^ bs.
+Proof. exact pre_iter_cover_exact. Qed.
+Print Assumptions C15_pre_iter_cover_exact.
+
+(* ResponseIter (below the block size: chunks): leaves are single chunks, or fully selected aligned blocks of at
+   most 2^bs chunks; they cover exactly the selected chunks *)
+Theorem C15_response_iter_gran : forall size bs q, size <= 2 ^ 63 -> bs <= 10 -> wf_ranges q = true ->
+  forall lo hi, In (lo, hi) (leaves_of_plan (response_iter (mkTree size bs) q)) ->
+  exists j k, lo = k * 2 ^ j /\ hi = N.min (lo + 2 ^ j) (nchunks size) /\ lo < nchunks size /\ j <= bs /\
+    (0 < j -> forall c, lo <= c < hi -> sel q size c = true).
+Proof. exact response_iter_gran. Qed.
+Print Assumptions C15_response_iter_gran.
+
+Theorem C15_response_iter_cover_exact : forall size bs q, size <= 2 ^ 63 -> bs <= 10 -> wf_ranges q = true ->
+  forall c, in_leaves (leaves_of_plan (response_iter (mkTree size bs) q)) c = true <-> sel q size c = true.
+Proof. exact response_iter_cover_exact. Qed.
+Print Assumptions C15_response_iter_cover_exact.
+
+(* ResponseIter refines the chunk iterator of the same tree (whatever its min level) *)
+Theorem C15_response_refines_chunk_iter : forall size bs ml q, size <= 2 ^ 63 -> bs <= 10 -> wf_ranges q = true ->
+  forall lo hi, In (lo, hi) (leaves_of_plan (response_iter (mkTree size bs) q)) ->
+  exists lo' hi', In (lo', hi') (leaves_of_plan (pre_order_chunks_iter (mkTree size bs) q ml)) /\ lo' <= lo /\ hi <= hi'.
+Proof. exact response_refines_chunk_iter. Qed.
+Print Assumptions C15_response_refines_chunk_iter.
+
+(* a min level at or below the block size has no effect (no hypothesis on size or query for the recursive plan) *)
+Theorem C15_pre_plan_ml_low : forall size bs ml q, ml <= bs -> pre_plan size bs ml q = pre_plan size bs 0 q.
+Proof. exact pre_plan_ml_low. Qed.
+Print Assumptions C15_pre_plan_ml_low.
+
+Theorem C15_pre_iter_ml_low : forall size bs ml q, size <= 2 ^ 63 -> bs <= 10 -> wf_ranges q = true -> ml <= bs ->
+  map without_ranges (pre_order_chunks_iter (mkTree size bs) q ml)
+  = map without_ranges (pre_order_chunks_iter (mkTree size bs) q 0).
+Proof. exact pre_iter_ml_low. Qed.
+Print Assumptions C15_pre_iter_ml_low.
+
+(* ... and above the block size it does matter *)
+Theorem C15_pre_plan_ml_high_differs :
+  pre_plan 4096 0 2 [0] = [CLeaf 0 4096 true []] /\
+  pre_plan 4096 0 0 [0] <> pre_plan 4096 0 2 [0].
+Proof. exact pre_plan_ml_high_differs. Qed.
+Print Assumptions C15_pre_plan_ml_high_differs.
+
+(* ---- F. the item carrying the root flag IS the root: the leaf holding the whole blob, or the parent whose chunk
+   range starts at 0, contains the end of the blob and whose split point lies inside the blob ---- *)
+Theorem C15_pre_iter_root_item : forall size bs ml q, size <= 2 ^ 63 -> bs <= 10 -> wf_ranges q = true -> q <> [] ->
+  exists c rest, pre_order_chunks_iter (mkTree size bs) q ml = c :: rest /\
+    match c with
+    | CLeaf s z ir _ => s = 0 /\ z = size /\ ir = true
+    | CParent nd ir _ _ _ => ir = true /\ sp_chunk_start nd = 0 /\ nd + 1 < nchunks size /\ nchunks size <= sp_chunk_end nd
+    end.
+Proof. exact pre_iter_root_item. Qed.
+Print Assumptions C15_pre_iter_root_item.
+
+Theorem C15_response_iter_root_item : forall size bs q, size <= 2 ^ 63 -> bs <= 10 -> wf_ranges q = true -> q <> [] ->
+  exists c rest, response_iter (mkTree size bs) q = c :: rest /\
+    match c with
+    | CLeaf s z ir _ => s = 0 /\ z = size /\ ir = true
+    | CParent nd ir _ _ _ => ir = true /\ sp_chunk_start nd = 0 /\ nd + 1 < nchunks size /\ nchunks size <= sp_chunk_end nd
+    end.
+Proof. exact response_iter_root_item. Qed.
+Print Assumptions C15_response_iter_root_item.
+
+Theorem C15_post_iter_root_item : forall size bs, size <= 2 ^ 63 -> bs <= 10 ->
+  exists init c, post_order_chunks_iter (mkTree size bs) = init ++ [c] /\
+    match c with
+    | CLeaf s z ir _ => s = 0 /\ z = size /\ ir = true
+    | CParent nd ir _ _ _ => ir = true /\ sp_chunk_start nd = 0 /\ nd + 1 < nchunks size /\ nchunks size <= sp_chunk_end nd
+    end.
+Proof. exact post_iter_root_item. Qed.
+Print Assumptions C15_post_iter_root_item.
+
+(* non-vacuity: concrete runs of the three stack machines (min level below / above the block size) *)
+Theorem C15_gap_nonvacuous :
+  (5000 <= 2 ^ 63 /\ 1 <= 10 /\ wf_ranges [1; 3] = true /\ [1; 3] <> @nil N /\
+   pre_order_chunks_iter (mkTree 5000 1) [1; 3] 0 =
+     [CParent 3 true true false [1; 3]; CParent 1 false true true [1; 3]; CLeaf 0 2048 false [1]; CLeaf 2 2048 false [1; 3]] /\
+   response_iter (mkTree 5000 1) [1; 3] =
+     [CParent 3 true true false []; CParent 1 false true true []; CParent 0 false false true []; CLeaf 1 1024 false [];
+      CParent 2 false true false []; CLeaf 2 1024 false []] /\
+   post_order_chunks_iter (mkTree 5000 1) =
+     [CLeaf 0 2048 false []; CLeaf 2 2048 false []; CParent 1 false true true []; CLeaf 4 904 false []; CParent 3 true true true []]) /\
+  (9000 <= 2 ^ 63 /\ wf_ranges [0; 6] = true /\ 1 < 3 /\
+   pre_order_chunks_iter (mkTree 9000 1) [0; 6] 3 =
+     [CParent 7 true true false [0; 6]; CParent 3 false true true [0; 6]; CLeaf 0 4096 false [0];
+      CParent 5 false true false [0; 6]; CLeaf 4 2048 false [0]]).
+Proof. exact gap_c15_nonvacuous. Qed.
+Print Assumptions C15_gap_nonvacuous.
